@@ -492,11 +492,21 @@ var $growSlice = (slice, minCapacity) => {
         
         let newArray;
         if (array.constructor === Array) {
-            newArray = array.slice(offset, offset + length);
-            newArray.length = capacity;
-            const zero = slice.constructor.elem.zero;
-            for (let i = slice.$length; i < capacity; i++) {
-                newArray[i] = zero();
+            const elem = slice.constructor.elem;
+            const zero = elem.zero;
+            if (elem.kind === $kindArray || elem.kind === $kindStruct) {
+                /* array and struct elements are values: the new backing array gets copies */
+                newArray = new Array(capacity);
+                for (let i = 0; i < capacity; i++) {
+                    newArray[i] = zero();
+                }
+                $copyArray(newArray, array, 0, offset, length, elem);
+            } else {
+                newArray = array.slice(offset, offset + length);
+                newArray.length = capacity;
+                for (let i = slice.$length; i < capacity; i++) {
+                    newArray[i] = zero();
+                }
             }
         } else {
             newArray = new array.constructor(capacity);
